@@ -80,6 +80,18 @@ class _LoadAndSave:
         # releases exactly what the matching __enter__ acquired.
         self._acquired = local()
 
+    def __getstate__(self):
+        # The record of acquired locks belongs to the running threads, not to
+        # the collection: copies (copy.deepcopy) and pickles of a collection
+        # start with an empty one. A threading.local cannot be copied anyway.
+        state = self.__dict__.copy()
+        del state["_acquired"]
+        return state
+
+    def __setstate__(self, state):
+        self.__dict__.update(state)
+        self._acquired = local()
+
     def __enter__(self):
         lock = self._collection._thread_lock
         lock.__enter__()
